@@ -176,4 +176,69 @@ def run(ctx):
             els = init.child('else').strip(casts=True)
             ok = els.k == 'ConditionalOperator' and els.child('else').strip(casts=True).k == 'DeclRefExpr' and els.child('else').strip(casts=True).decl['n'] == 'start_day'
     ctx.check(ok, 'R24.3', 'FIX8::Configuration::create_schedule#end-day-default', cs.loc, 'a missing end_day defaults to start_day (same-day weekly window)')
+    # ---------------- R24.4 the day base is taken from the LOCAL time: now.adjust(offset) precedes every other read of `now`
+    cfg = f.cfg
+    adj = [c for c in f.calls() if c.callee_qp == 'FIX8::Tickval::adjust' and c.obj is not None and c.obj.strip(casts=True).k == 'DeclRefExpr']
+    ctx.need(len(adj) == 1, 'Schedule::test: now.adjust(...) not found')
+    nowd = adj[0].obj.strip(casts=True).declid
+    ctx.check(any(x.k == 'MemberExpr' and x.decl.get('qp') == SCH + '_toffset' for a in adj[0].args for x in a.walk()), 'R24.4', SCH + 'test#offset-applied', adj[0].loc,
+              'the configured utc offset is applied to the current time')
+    av = cfg.vertex_of(adj[0])
+    early = []
+    for n in f.all_nodes():
+        if n.k == 'DeclRefExpr' and n.declid == nowd and cfg.has_vertex(n) and n not in list(adj[0].walk()):
+            par = n.parent
+            is_decl = False
+            v = cfg.vertex_of(n)
+            if not cfg.dominates(av, v):
+                early.append(n)
+    ctx.check(not early, 'R24.4', SCH + 'test#local-time-basis', (early[0].loc if early else adj[0].loc),
+              'every value derived from `now` (the day base `today`, the weekday, the range tests) is taken after the offset adjustment',
+              '`now` is read at %s before the utc offset is applied (`%s`): the day base is the UTC date while the time of day is local, so around local midnight '
+              'the window is tested against the wrong day' % (early[0].loc if early else '', early[0].parent.text() if early and early[0].parent is not None else ''))
+
+    # ---------------- R24.5 decode_dow: the weekday returned belongs to the candidate whose second letter matched
+    dd = prog.fn1('FIX8::decode_dow')
+    ctx.saw(dd)
+    dcfg = dd.cfg
+    incs = [n for n in dd.all_nodes() if n.k in ('UnaryOperator', 'CXXOperatorCallExpr') and (n.op if n.k == 'UnaryOperator' else n.r.get('op')) == '++' and dcfg.has_vertex(n)]
+    derefs = [n for n in dd.all_nodes() if n.k in ('ArraySubscriptExpr', 'CXXOperatorCallExpr') and dcfg.has_vertex(n) and
+              any(x.k == 'DeclRefExpr' and x.decl.get('n') == 'day_names' for x in n.walk()) and
+              (n.k == 'ArraySubscriptExpr' and any(x.k == 'DeclRefExpr' and x.decl.get('n') == 'day_names' for x in n.children[0].walk()))]
+    ctx.need(len(derefs) >= 2 and len(incs) >= 1, 'decode_dow: two candidate look-ups in day_names and an iterator increment expected (%d, %d)' % (len(derefs), len(incs)))
+    rets = [n for n in dd.all_nodes() if n.k == 'ReturnStmt']
+    fin = rets[-1]
+    reads = [x for x in fin.walk() if x.k == 'MemberExpr' and x.decl.get('n') == 'second' and dcfg.has_vertex(x) and
+             not any(a in derefs for a in x.ancestors())]
+    ctx.need(reads, 'decode_dow: the weekday read `->second` of the final return not found')
+    incv = {dcfg.vertex_of(n) for n in incs}
+    bad = None
+    for dnode in derefs:
+        # the comparison this look-up feeds: directly, or through a local initialised from it
+        holder = None
+        for a in dnode.ancestors():
+            if a.k == 'DeclStmt':
+                holder = a.r['decls'][0][0]
+                break
+        def feeds(atom, _d=dnode, _h=holder):
+            return _d in list(atom.walk()) or (_h is not None and any(x.k == 'DeclRefExpr' and x.declid == _h for x in atom.walk()))
+        for (b, a, pol) in q.branches(dd, feeds):
+            tg = q.atom_edge(dcfg, (b, a, pol), True)
+            dv = dcfg.vertex_of(dnode)
+            for r in reads:
+                rv = dcfg.vertex_of(r)
+                # an increment strictly after the look-up and before the read, on a path through the match edge
+                for iv in incv:
+                    own = any(dcfg.vertex_of(x) == iv for x in dnode.walk() if dcfg.has_vertex(x))
+                    if own:
+                        continue          # the increment that selects THIS candidate is part of the look-up itself
+                    before_branch = iv in dcfg.reach_from(dv) and dcfg.block_last[b] in (dcfg.reach_from(iv) | {iv})
+                    after_branch = any(iv in (dcfg.reach_from(t) | {t}) for t in tg) and rv in dcfg.reach_from(iv)
+                    reaches = any(rv in (dcfg.reach_from(t) | {t}) for t in tg)
+                    if reaches and (before_branch or after_branch):
+                        bad = (dnode, a)
+    ctx.check(bad is None, 'R24.5', 'FIX8::decode_dow#matched-candidate', fin.loc,
+              'when a candidate\'s second letter matches, the iterator still points at that candidate when its weekday is returned',
+              'the candidate looked up by `%s` can match (`%s`) after the iterator has been advanced past it: the weekday returned is the NEXT candidate\'s '
+              '("su" decodes to Saturday, "tu" to Thursday)' % (bad[0].text() if bad else '', bad[1].text() if bad else ''))
     ctx.floor('R24.1', 4)
